@@ -212,10 +212,10 @@ def classify(case, clause, run, obs=None):
         root = "empty-input"
     elif op == "pad" and pf == "reuse" and wide:
         root = "wider-than-axis"
+    elif op == "pad" and case["mode"] == "mean" and n_pad >= 2 and kind == "wrong-result":
+        root = "mean-corners"
     elif any(0 in ax and sum(ax) > 0 for ch, k in zip(run["chunks"], run["kinds"]) if k == "da" for ax in ch):
         root = "zero-chunk"
-    elif op == "pad" and case["mode"] == "mean" and n_pad >= 2:
-        root = "mean-corners"
     if root is None:
         return "%s:%s:%s" % (fam, clause, "numpy-input" if "np" in run["kinds"] else "basic")
     return "%s:%s:%s" % (fam, root, kind)
@@ -481,3 +481,91 @@ def replay(ctx, obj):
     cl = judge(exp, obs, got)
     print("case:", case, "\nrun:", run, "\nexpected:", exp, "\nobserved:", obs, got, "\nclause:", cl)
     return cl is not None
+
+
+# --------------------------------------------------------------------------- selftest
+def _selftest_replay(cases, chunkings, seed=11):
+    """Run the case loop serially (mutants are patched in this process).  -> (#violations, {signature})"""
+    import random
+    rng = random.Random(seed)
+    bad, sigs = 0, set()
+    for c in cases:
+        case, exp = c["c"], c["e"]
+        if exp["err"]:
+            continue
+        for run in make_runs(case, chunkings, rng, 2, 0):
+            if any(0 in ax and sum(ax) > 0 for ch in run["chunks"] for ax in ch):
+                continue            # the self-test uses inputs on which unmutated dask is correct
+            obs, got = run_dask(case, run)
+            if "skip" in obs:
+                continue
+            cl = judge(exp, obs, got)
+            if cl:
+                bad += 1
+                sigs.add(classify(case, cl, run, obs))
+    return bad, sigs
+
+
+def selftest(ctx):
+    import copy
+    import importlib
+    from ..srcmut import mutant
+    routines = importlib.import_module("dask.array.routines")
+    creation = importlib.import_module("dask.array.creation")
+    ok = True
+    cases, chunkings = enumerate_cases(ctx, ["roll", "rot90", "tri", "pad", "flip"], "{<<3>>, <<2, 3>>}", 2, "selftest")
+    cases = [c for c in cases if not (c["c"]["op"] == "pad" and
+                                      (c["c"]["mode"] not in ("reflect", "edge") or max(max(p) for p in c["c"]["pw"]) > 1))]
+    base, sigs = _selftest_replay(cases, chunkings)
+    print("selftest C24: unmutated dask on the self-test case set (%d cases): %d violations %s -> %s"
+          % (len(cases), base, sorted(sigs), "ok" if base == 0 else "FAILED"))
+    ok &= base == 0
+    mutants = [
+        ("M1 routines.roll: -s % shape -> s % shape  [sign slip]", routines, "roll",
+         "s = 0 if shape == 0 else -s % shape", "s = 0 if shape == 0 else s % shape"),
+        ("M2 creation.pad_reuse: reflect takes slice(1, pw+1) -> slice(0, pw)  [edge repeated]", creation, "pad_reuse",
+         "select.append(slice(1, pw[0] + 1, None))", "select.append(slice(0, pw[0], None))"),
+        ("M3 routines.rot90 (k == 3): flip along axes[1] -> axes[0]  [wrong operand]", routines, "rot90",
+         "return flip(transpose(m, axes_list), axes[1])", "return flip(transpose(m, axes_list), axes[0])"),
+        ("M4 routines.triu: mask k - 1 -> k  [boundary off by one]", routines, "triu", "k=k - 1,", "k=k,"),
+    ]
+    import dask.array as da
+    for title, mod, fn, old, new in mutants:
+        with mutant(mod, fn, old, new) as f:
+            saved = getattr(da, fn, None)
+            if saved is not None:
+                setattr(da, fn, f)          # dask.array re-exports the function object
+            try:
+                n, sigs = _selftest_replay(cases, chunkings)
+            finally:
+                if saved is not None:
+                    setattr(da, fn, saved)
+        print("selftest C24: mutant %s: %d violations %s -> %s" % (title, n, sorted(sigs)[:3], "DETECTED" if n > 0 else "MISSED"))
+        ok &= n > 0
+    # (ii) corrupted recorded fields are rejected by the trace specification
+    good = []
+    for item in random_runs(ctx, 40):
+        r = _record(item)
+        if "skip" not in r and r["obs"]["raised"] == "" and len(r["obs"]["cells"]) > 1 and \
+                not any(0 in ax for ch in r["run"]["chunks"] for ax in ch):
+            good.append(r)
+        if len(good) == 3:
+            break
+    bads = []
+    c1 = copy.deepcopy(good[0]); c1["id"] = "c_cells"
+    c1["obs"]["cells"][0], c1["obs"]["cells"][-1] = c1["obs"]["cells"][-1], c1["obs"]["cells"][0]
+    if c1["obs"]["cells"] == good[0]["obs"]["cells"]:
+        c1["obs"]["cells"][0] += 1
+    c2 = copy.deepcopy(good[1]); c2["id"] = "c_shape"; c2["obs"]["cshape"] = c2["obs"]["cshape"] + [1]
+    c3 = copy.deepcopy(good[2]); c3["id"] = "c_chunks"; c3["obs"]["chunks"][0] = c3["obs"]["chunks"][0] + [1]
+    bads = [c1, c2, c3]
+    rej = validate(ctx, good + bads, "selftest", report=False)
+    for r in good:
+        print("selftest C24: uncorrupted record %s (%s) -> %s" % (r["id"], r["c"]["op"], "accepted" if r["id"] not in rej else "rejected  FAILED"))
+        ok &= r["id"] not in rej
+    for r in bads:
+        print("selftest C24: corrupted record %s (%s) -> %s" % (r["id"], r["c"]["op"],
+                                                               ("rejected (%s)" % rej[r["id"]]) if r["id"] in rej else "accepted  FAILED"))
+        ok &= r["id"] in rej
+    print("selftest C24: %s" % ("all binding checks hold" if ok else "FAILED"))
+    return 0 if ok else 1
